@@ -153,3 +153,48 @@ Definition of_stratum (ps : nat -> Q) : row -> Q := fun r => ps (st r).
 (* table lookup nat -> Q with default *)
 Fixpoint lookup (tbl : list (nat * Q)) (d : Q) (s : nat) : Q :=
   match tbl with [] => d | (k, v) :: tl => if Nat.eqb k s then v else lookup tl d s end.
+
+(* ------------------------------------------------------------------------------------------------
+   TimeFixedGFormula.fit_stochastic realises a probability p on a group of m rows as int(p*m)/m *)
+Definition realised (p : Q) (m : nat) : Q := inject_Z (treated_count p m) / Qnat m.
+Definition plan_conds (pl : plan) : list cond := match pl with Uncond _ => [] | Cond cs _ => cs end.
+Definition gf_pi (pl : plan) (l : list row) (r : row) : option Q :=
+  match pl with
+  | Uncond p => Some (realised p (length l))
+  | Cond cs ps => assign_pl (map (fun cp => (fst cp, realised (snd cp) (length (select l (fst cp))))) (combine cs ps)) r
+  end.
+Definition gf_counts (pl : plan) (l : list row) : list Z :=
+  match pl with
+  | Uncond p => [treated_count p (length l)]
+  | Cond cs ps => map (fun cp => treated_count (snd cp) (length (select l (fst cp)))) (combine cs ps)
+  end.
+Definition stratum_of (f : row -> option Q) (l : list row) (s : nat) : Q :=
+  match cellrows s l with r :: _ => oget (f r) | [] => 0 end.
+
+(* ------------------------------------------------------------------------------------------------
+   canonical reports evaluated by the run (harness/props/c14.py) *)
+(* per frame: strata in order of appearance, cell means, cell sizes, treat-all / treat-none standardised means *)
+Definition frame_report (l : list row) :=
+  (map Z.of_nat (strata l),
+   Qflat (map (fun s => ybar s true l) (strata l)), Qflat (map (fun s => ybar s false l) (strata l)),
+   Qflat (map (fun s => Nw s l) (strata l)),
+   Qflat [std TAll true l; std TAll false l; gf_marginal TAll true l; gf_marginal TAll false l;
+          iptw_mu false TAll (1#2) 1 1 true l; iptw_mu false TAll (1#2) 1 1 false l]).
+(* per plan (listing order as given): hypotheses, specification, StochasticIPTW model, plan probabilities by stratum *)
+Definition plan_report (pl : plan) (l : list row) :=
+  (check_exclusive (plan_conds pl) l,
+   match pl with Uncond _ => true | Cond cs _ => check_exhaustive cs l end,
+   Qpair (mixture_plan pl l),
+   Qopair (siptw_marginal pl l),
+   Qoflat (map (siptw_weight pl) l),
+   Qflat (map (stratum_p pl l) (strata l)),
+   Qpair (indep_var (fun r => oget (plan_p pl r)) l),
+   (Qpair (mixture (stratum_of (gf_pi pl l) l) l), Qflat (map (stratum_of (gf_pi pl l) l) (strata l)), gf_counts pl l)).
+(* per listing order only the loop's outputs *)
+Definition order_report (pl : plan) (l : list row) :=
+  (Qopair (siptw_marginal pl l), Qoflat (map (siptw_weight pl) l), Qoflat (map (stmle_haw pl) l)).
+(* per simulated run: marginal of the first recorded draws from the rows, and the Monte-Carlo mean from the mean
+   per-stratum counts (tables stratum -> mean number of rows drawn into arm 1 / arm 0) *)
+Definition sim_report (l : list row) (heads : list (list bool)) (k1 k0 : list (nat * Q)) :=
+  (Qflat (map (draw_marginal l) heads),
+   Qpair (counts_marginal (fun s a => if a then lookup k1 0 s else lookup k0 0 s) l)).
